@@ -624,6 +624,8 @@ static bool gen_c14(uint64_t seed, const std::string &tier, uint64_t i, Plan &p)
   if (r.chance(0.2)) { p.ops.push(Json::obj().set("op", "sleep").set("s", (long long)r.range(1, 500))); p.ops.push(Json::obj().set("op", "signal").set("to", "qmail-send").set("sig", "ALRM")); }
   // the bounce injection itself may fail: duplicates allowed, losses not
   if (i % 5 == 4) { Fault f; f.actor = "qmail-queue"; f.call = r.pick(std::vector<CallId>{C_WRITE, C_FSYNC, C_LINK, C_OPEN, C_READ}); f.nth = (int)r.range(3, 25); f.kind = "error"; f.err = EIO; p.faults.push_back(f); }
+  // ... or the daemon cannot even start the queue program for the bounce (no process slot, no descriptors): it says so and tries again later
+  if (i % 5 == 0 && r.chance(0.5)) { Fault f; f.actor = "qmail-send#"; f.call = r.pick(std::vector<CallId>{C_FORK, C_PIPE}); f.nth = (int)r.range(1, 3); f.kind = "error"; f.err = r.pick(std::vector<int>{EAGAIN, ENOMEM, EMFILE, ENFILE}); p.faults.push_back(f); }
   // a signal interrupts the daemon while it waits for the queue child that takes the bounce (wait returns EINTR once)
   if (i % 5 == 1 && r.chance(0.6)) { Fault f; f.actor = "qmail-send"; f.call = C_WAITPID; f.nth = (int)r.range(1, 3); f.kind = "eintr"; p.faults.push_back(f); }
   // one transient allocation failure in the daemon (it does not exit on out-of-memory: it waits and retries the very allocation;
